@@ -15,7 +15,18 @@ from mc import synth
 import spikeglx
 
 FS = [30000, 29999.757983, 2500, 2500.0325532900833, 30003.0003]
-META_MODES = ["equal", "fewer", "more", "onemore", "fileSize"]
+META_MODES = ["equal", "fewer", "more", "onemore", "fileSize", "in-progress"]
+# "in-progress": the metadata SpikeGLX writes while it is still acquiring has no fileSizeBytes / fileTimeSecs / fileSHA1 yet (the shipped fixture
+# sampleNP2.4_4shanks_while_acquiring_incomplete.ap.meta is of that kind - asserted below); only the online reader is meant for such files
+IN_PROGRESS_KEYS = ("fileSizeBytes", "fileTimeSecs", "fileSHA1")
+
+
+def _in_progress_anchored():
+    f = os.path.join(os.path.dirname(os.path.abspath(spikeglx.__file__)), "tests", "fixtures", "sampleNP2.4_4shanks_while_acquiring_incomplete.ap.meta")
+    if not os.path.exists(f):
+        return False
+    keys = {ln.split("=", 1)[0].lstrip("~") for ln in open(f).read().splitlines() if "=" in ln}
+    return not any(k in keys for k in IN_PROGRESS_KEYS)
 
 
 def _sites(k):
@@ -26,22 +37,25 @@ def trunc_cases(tier, seed):
     cases = []
     plan = [(2, range(1, 31 if tier == "quick" else 61)), (5, range(1, 31 if tier == "quick" else 61)),
             (385, (1, 2, 7) if tier == "quick" else (1, 2, 3, 7, 8, 31))]
+    inprog = _in_progress_anchored()
     for nc, frames in plan:
         frame = nc * 2
         for nf in frames:
             for extra in range(frame):
                 nbytes = nf * frame + extra
                 for mm in range(len(META_MODES)):
-                    if nc == 385 and mm >= 3:
+                    if nc == 385 and mm in (3, 4):
+                        continue
+                    if META_MODES[mm] == "in-progress" and not inprog:
                         continue
                     for fi in range(4 if nc < 385 else 2):
-                        for rd in (0, 1, 2):
+                        for rd in ((1, 3) if META_MODES[mm] == "in-progress" else (0, 1, 2, 3)):
                             cases.append((nc, nbytes, mm, fi, rd))
     return cases
 
 
 def _claimed(mode, nf):
-    return {"equal": nf, "fewer": max(nf - 1, 1), "more": nf + 3, "onemore": nf + 1, "fileSize": nf}[mode]
+    return {"equal": nf, "fewer": max(nf - 1, 1), "more": nf + 3, "onemore": nf + 1, "fileSize": nf, "in-progress": nf}[mode]
 
 
 def trunc_check(case):
@@ -61,12 +75,14 @@ def trunc_check(case):
     items = synth.meta_items("NP2.1", _sites(k), _claimed(mode, nf), fs=fs)
     if mode == "fileSize":
         items = [(a, ("%d" % nbytes) if a == "fileSizeBytes" else b) for a, b in items]
+    if mode == "in-progress":
+        items = [(a, b) for a, b in items if a not in IN_PROGRESS_KEYS]
     with open(os.path.join(d, stem + ".meta"), "w") as f:
         f.write(synth.meta_text(items))
     v = []
-    cls = spikeglx.OnlineReader if rd == 1 else spikeglx.Reader
-    cname = ["offline", "online", "offline-ignore-warnings"][rd]
-    kwargs = {"ignore_warnings": True} if rd == 2 else {}
+    cls = spikeglx.OnlineReader if rd in (1, 3) else spikeglx.Reader
+    cname = ["offline", "online", "offline-ignore-warnings", "online-ignore-warnings"][rd] + (":in-progress-meta" if mode == "in-progress" else "")
+    kwargs = {"ignore_warnings": True} if rd >= 2 else {}
     partial = (nbytes % frame) != 0
     tag = "%s:%s" % (cname, "partial-frame" if partial else "whole-frames")
     try:
